@@ -1140,3 +1140,218 @@ theorem mixed_session_in_step {P : Bytes → Bool} {cfg : Cfg} {dv : LineDev} (h
       · rw [hwr, hw1]; simp [opWrites, List.append_assoc]
 
 end Scrapli.Chan
+
+namespace Scrapli.Chan
+open Scrapli
+
+/-! ### what `_process_output` returns, at the level of lines -/
+
+/-- drop leading and trailing empty lines -/
+def trimLines (ls : List Bytes) : List Bytes :=
+  ((ls.dropWhile List.isEmpty).reverse.dropWhile List.isEmpty).reverse
+
+/-- the property's own wording: every line right-trimmed, surrounding blank lines dropped -/
+def normalizeText (o : Bytes) : Bytes := joinNL (trimLines ((splitNL o).map rstrip))
+
+theorem splitNL_no_nl (b : Bytes) : ∀ l ∈ splitNL b, NL ∉ l := by
+  induction b with
+  | nil => intro l hl; simp [splitNL] at hl; subst hl; simp
+  | cons c r ih =>
+    intro l hl
+    rw [splitNL_cons] at hl
+    have hne := splitNL_ne_nil r
+    cases hs : splitNL r with
+    | nil => exact absurd hs hne
+    | cons h t =>
+      rw [hs] at hl ih
+      by_cases hc : c = NL
+      · simp only [hc, beq_self_eq_true, ↓reduceIte] at hl
+        rcases List.mem_cons.mp hl with rfl | hl
+        · simp
+        · exact ih l hl
+      · have hcb : (c == NL) = false := by simpa using hc
+        simp only [hcb, Bool.false_eq_true, ↓reduceIte, List.headD_cons, List.tail_cons] at hl
+        rcases List.mem_cons.mp hl with rfl | hl
+        · intro hm
+          rcases List.mem_cons.mp hm with e | e
+          · exact hc e.symm
+          · exact ih h (by simp) e
+        · exact ih l (by simp [hl])
+
+theorem dropWhile_idem (p : UInt8 → Bool) (l : Bytes) : (l.dropWhile p).dropWhile p = l.dropWhile p := by
+  induction l with
+  | nil => rfl
+  | cons c r ih =>
+    by_cases hc : p c = true
+    · simp [List.dropWhile_cons, hc, ih]
+    · simp [List.dropWhile_cons, hc]
+
+theorem rstrip_idem (l : Bytes) : rstrip (rstrip l) = rstrip l := by
+  unfold rstrip
+  rw [List.reverse_reverse, dropWhile_idem]
+
+theorem rstrip_no_nl {l : Bytes} (h : NL ∉ l) : NL ∉ rstrip l := by
+  intro hm
+  unfold rstrip at hm
+  have : NL ∈ l.reverse.dropWhile isWs := by simpa using hm
+  exact h (by simpa using (List.dropWhile_suffix isWs).subset this)
+
+/-- a right-trimmed non-empty line stays as it is behind anything -/
+theorem rstrip_append_trimmed (x l : Bytes) (hl : l ≠ []) (hr : rstrip l = l) : rstrip (x ++ l) = x ++ l := by
+  unfold rstrip at hr ⊢
+  have hrev : l.reverse.dropWhile isWs = l.reverse := by
+    have := congrArg List.reverse hr
+    simpa using this
+  cases hlr : l.reverse with
+  | nil => exact absurd (by simpa using hlr) hl
+  | cons c r =>
+    rw [hlr] at hrev
+    have hc : isWs c = false := by
+      cases hc' : isWs c with
+      | false => rfl
+      | true =>
+        exfalso
+        simp only [List.dropWhile_cons, hc', ↓reduceIte] at hrev
+        have := (List.dropWhile_suffix isWs (l := r)).length_le
+        rw [hrev] at this
+        simp at this
+        omega
+    show ((x ++ l).reverse.dropWhile isWs).reverse = x ++ l
+    rw [List.reverse_append, hlr]
+    simp only [List.cons_append, List.dropWhile_cons, hc, Bool.false_eq_true, ↓reduceIte]
+    rw [← List.cons_append, ← hlr, ← List.reverse_append, List.reverse_reverse]
+
+theorem joinNL_concat (init : List Bytes) (last : Bytes) (h : init ≠ []) :
+    joinNL (init ++ [last]) = joinNL init ++ NL :: last := by
+  induction init with
+  | nil => exact absurd rfl h
+  | cons a r ih =>
+    cases r with
+    | nil => simp [joinNL]
+    | cons b r' =>
+      have := ih (by simp)
+      simp only [List.cons_append] at this ⊢
+      simp [joinNL, this]
+
+/-- `lstrip(b"\n")` on joined lines = dropping the leading empty lines -/
+theorem lstrip_joinNL : ∀ (ls : List Bytes), (∀ l ∈ ls, NL ∉ l) →
+    lstripChars [NL] (joinNL ls) = joinNL (ls.dropWhile List.isEmpty) := by
+  intro ls
+  induction ls with
+  | nil => intro _; rfl
+  | cons l rest ih =>
+    intro h
+    have hrest : ∀ l ∈ rest, NL ∉ l := fun x hx => h x (by simp [hx])
+    cases l with
+    | nil =>
+      cases rest with
+      | nil => simp [joinNL, lstripChars]
+      | cons b r =>
+        have : joinNL ([] :: b :: r) = NL :: joinNL (b :: r) := by simp [joinNL]
+        rw [this]
+        have e1 : lstripChars [NL] (NL :: joinNL (b :: r)) = lstripChars [NL] (joinNL (b :: r)) := by
+          simp [lstripChars, List.dropWhile_cons]
+        have e2 : List.dropWhile List.isEmpty (([] : Bytes) :: b :: r) = List.dropWhile List.isEmpty (b :: r) := by
+          simp [List.dropWhile_cons]
+        rw [e1, e2]
+        exact ih hrest
+    | cons c l' =>
+      have hc : c ≠ NL := fun e => h (c :: l') (by simp) (by simp [e])
+      have hj : ∃ tl, joinNL ((c :: l') :: rest) = c :: tl := by
+        cases rest with
+        | nil => exact ⟨l', by simp [joinNL]⟩
+        | cons b r => exact ⟨l' ++ NL :: joinNL (b :: r), by simp [joinNL]⟩
+      obtain ⟨tl, htl⟩ := hj
+      have e2 : List.dropWhile List.isEmpty ((c :: l') :: rest) = (c :: l') :: rest := by
+        simp [List.dropWhile_cons]
+      rw [e2, htl]
+      simp [lstripChars, List.dropWhile_cons, hc]
+
+/-- `rstrip()` on joined right-trimmed lines = dropping the trailing empty lines
+    (stated on the reversed line list so that the induction peels lines off the end) -/
+theorem rstrip_joinNL_rev : ∀ (rs : List Bytes), (∀ l ∈ rs, rstrip l = l) →
+    rstrip (joinNL rs.reverse) = joinNL (rs.dropWhile List.isEmpty).reverse := by
+  intro rs
+  induction rs with
+  | nil => intro _; simp [joinNL, rstrip]
+  | cons last rinit ih =>
+    intro h
+    have hinit : ∀ l ∈ rinit, rstrip l = l := fun x hx => h x (by simp [hx])
+    have hlast : rstrip last = last := h last (by simp)
+    rw [List.reverse_cons]
+    by_cases hl : last = []
+    · subst hl
+      have e : List.dropWhile List.isEmpty (([] : Bytes) :: rinit) = List.dropWhile List.isEmpty rinit := by
+        simp [List.dropWhile_cons]
+      rw [e]
+      by_cases hi : rinit = []
+      · subst hi; simp [joinNL, rstrip]
+      · have hi' : rinit.reverse ≠ [] := by simpa using hi
+        rw [joinNL_concat rinit.reverse [] hi', rstrip_append_ws (joinNL rinit.reverse) [NL] (by decide)]
+        exact ih hinit
+    · have hne : last.isEmpty = false := by simpa using hl
+      have e : List.dropWhile List.isEmpty (last :: rinit) = last :: rinit := by
+        simp [List.dropWhile_cons, hne]
+      rw [e, List.reverse_cons]
+      by_cases hi : rinit = []
+      · subst hi; simpa [joinNL] using hlast
+      · have hi' : rinit.reverse ≠ [] := by simpa using hi
+        rw [joinNL_concat rinit.reverse last hi']
+        have := rstrip_append_trimmed (joinNL rinit.reverse ++ [NL]) last hl hlast
+        simpa [List.append_assoc] using this
+
+theorem rstrip_joinNL (ls : List Bytes) (h : ∀ l ∈ ls, rstrip l = l) :
+    rstrip (joinNL ls) = joinNL (ls.reverse.dropWhile List.isEmpty).reverse := by
+  have := rstrip_joinNL_rev ls.reverse (fun l hl => h l (by simpa using hl))
+  simpa using this
+
+theorem dropWhile_isEmpty_trimmed (ls : List Bytes) (h : ∀ l ∈ ls, rstrip l = l) :
+    ∀ l ∈ ls.dropWhile List.isEmpty, rstrip l = l :=
+  fun l hl => h l ((List.dropWhile_suffix _).subset hl)
+
+/-- **what `_process_output` returns without prompt stripping** (return char `\n`): the lines of the
+    buffer, each right-trimmed, without the leading and trailing empty lines — for ANY buffer whose
+    last line is not empty. -/
+theorem processOutput_lines (cfg : Cfg) (hret : cfg.ret = [NL]) (x z : Bytes) (hz : z ≠ []) (hznl : NL ∉ z) :
+    processOutput cfg (x ++ NL :: z) false = normalizeText (x ++ NL :: z) := by
+  unfold processOutput normalizeText trimLines
+  simp only [Bool.false_eq_true, ↓reduceIte, hret]
+  rw [splitlines_last_ne hz hznl, ← splitNL_noNL z hznl, ← splitNL_append_NL]
+  have hnl : ∀ l ∈ (splitNL (x ++ NL :: z)).map rstrip, NL ∉ l := by
+    intro l hl
+    obtain ⟨a, ha, rfl⟩ := List.mem_map.mp hl
+    exact rstrip_no_nl (splitNL_no_nl _ a ha)
+  have htr : ∀ l ∈ (splitNL (x ++ NL :: z)).map rstrip, rstrip l = l := by
+    intro l hl
+    obtain ⟨a, _, rfl⟩ := List.mem_map.mp hl
+    exact rstrip_idem a
+  rw [lstrip_joinNL _ hnl, rstrip_joinNL _ (dropWhile_isEmpty_trimmed _ htr)]
+
+end Scrapli.Chan
+
+namespace Scrapli.Chan
+open Scrapli
+
+/-- **with prompt stripping**: if `re.sub` removes exactly the prompt line (hypothesis `hsub`, what a
+    line-local pattern does on a buffer whose other lines are not prompt-like; validated against
+    CPython on every real run by the correspondence), the result is the response without the prompt,
+    every line right-trimmed, surrounding empty lines dropped. -/
+theorem processOutput_lines_strip (cfg : Cfg) (hret : cfg.ret = [NL]) (x p : Bytes) (hp : p ≠ [])
+    (hpnl : NL ∉ p)
+    (hsub : cfg.prompt.sub (joinNL ((splitNL (x ++ NL :: p)).map rstrip)) =
+      joinNL ((splitNL (x ++ [NL])).map rstrip)) :
+    processOutput cfg (x ++ NL :: p) true = normalizeText (x ++ [NL]) := by
+  unfold processOutput normalizeText trimLines
+  simp only [↓reduceIte, hret]
+  rw [splitlines_last_ne hp hpnl, ← splitNL_noNL p hpnl, ← splitNL_append_NL, hsub]
+  have hnl : ∀ l ∈ (splitNL (x ++ [NL])).map rstrip, NL ∉ l := by
+    intro l hl
+    obtain ⟨a, ha, rfl⟩ := List.mem_map.mp hl
+    exact rstrip_no_nl (splitNL_no_nl _ a ha)
+  have htr : ∀ l ∈ (splitNL (x ++ [NL])).map rstrip, rstrip l = l := by
+    intro l hl
+    obtain ⟨a, _, rfl⟩ := List.mem_map.mp hl
+    exact rstrip_idem a
+  rw [lstrip_joinNL _ hnl, rstrip_joinNL _ (dropWhile_isEmpty_trimmed _ htr)]
+
+end Scrapli.Chan
